@@ -2,5 +2,5 @@
 CONSTANTS MaxRank = 3  MaxSize = 3  MaxStride = 7  MaxLen = 44  K = 4  KRank = 2  Tier = "thorough"  Depth = 3  ChainSize = 3
 INIT Init
 NEXT Next
-INVARIANTS InvExact InvChain Emit
+INVARIANTS InvExact InvKbit InvChain Emit
 CHECK_DEADLOCK FALSE
